@@ -429,6 +429,71 @@ def opLsml : P String := do
   let G := (lsmlGradient M P Minv quads).store
   return "ok " ++ renderArr (#[lsmlLoss M P logdet quads] ++ (Mat.ofStore G).toArray)
 
+/-- C14: the whole projected-gradient loop of `_fit_full` — `mmcCycle`, the function `C14_last_feasible` is about,
+instantiated with the model's half-space / PSD projections, objective, gradients and step — replayed with the
+implementation's own eigen-decompositions as oracle (grouped per cycle).  An iterate carries the index of the cycle that
+will project it and a flag raised when the model's projection loop would have used another number of decompositions than
+the implementation did.  Returns `n_iter_`, the flag, and the stored matrix `A_old`. -/
+def opMmcRun : P String := do
+  let d ← nat; let np ← nat; let nn ← nat
+  let A0 ← readStore Float d d
+  let pos ← readVecs Float np d; let neg ← readVecs Float nn d
+  let tol ← scalar Float; let maxIter ← nat; let maxProj ← nat
+  let ncyc ← nat
+  let mut counts : Array Nat := #[]
+  let mut offs : Array Nat := #[]
+  let mut data : Array Float := #[]
+  for _ in [0:ncyc] do
+    let m ← nat
+    offs := offs.push data.size
+    counts := counts.push m
+    data := data ++ (← arr Float (m * (d + d * d)))
+  finish
+  let W : Mat Float d d := Mat.ofStore (mmcW pos).store
+  let t := mmcBudget pos (Mat.ofStore A0)
+  let lOf (c j : Nat) : Vec Float d := fun i => data.getD (offs.getD c 0 + j * (d + d * d) + i.val) 0
+  let vOf (c j : Nat) : Mat Float d d := fun a b => data.getD (offs.getD c 0 + j * (d + d * d) + d + a.val * d + b.val) 0
+  let St := Vector (Vector Float d) d × Nat × Bool
+  -- the alternating projections of one cycle
+  let project : St → St × Bool := fun (A, c, bad) =>
+    let m := counts.getD c 0
+    let rec loop (fuel j : Nat) (A : Vector (Vector Float d) d) : Vector (Vector Float d) d × Bool × Nat :=
+      match fuel with
+      | 0 => (A, false, j)
+      | fuel+1 =>
+        if j ≥ m then (A, false, j) else
+        let A1 := (halfspaceProject W (Mat.ofStore A) t).store
+        -- contract of the recorded decomposition: it decomposes the symmetrised half-space projection the MODEL formed
+        let recon := reconstruct (vOf c j) (lOf c j)
+        let (dev, sc) := (List.finRange d).foldl (fun acc x => (List.finRange d).foldl (fun (a : Float × Float) y =>
+          let want := (A1[x][y] + A1[y][x]) / 2
+          let dv := Float.abs (recon x y - want)
+          (if a.1 < dv then dv else a.1, if a.2 < Float.abs want then Float.abs want else a.2)) acc) (0.0, 1e-300)
+        if dev > 1e-7 * sc then (A1, false, m + maxProj + 1) else      -- (an impossible count: raises the flag below)
+        let A2 := (psdProject (vOf c j) (lOf c j)).store
+        if mmcSatisfied pos (Mat.ofStore A2) t then (A2, true, j + 1) else loop fuel (j + 1) A2
+    let (A', sat, used) := loop maxProj 0 A
+    -- consistent with the implementation: all recorded decompositions of the cycle were used, and a failure exhausted max_proj
+    let bad' := bad || used != m || (!sat && m != maxProj)
+    ((A', c, bad'), sat)
+  let obj : St → Float := fun s => mmcFD neg (Mat.ofStore s.1)
+  let dir : St → St := fun (A, c, bad) =>
+    ((mmcGradProjection (mmcFD1 neg (Mat.ofStore A)) W).store, c, bad)
+  let step : Nat → St → Float → St → St := fun cycle (A, _, b1) a (M, _, b2) =>
+    ((madd (Mat.ofStore A) (mscale a (Mat.ofStore M))).store, cycle + 1, b1 || b2)
+  let M0 : St := ((mmcGradProjection W (mmcFD1 neg (Mat.ofStore A0))).store, 0, false)
+  let s0 : MmcState St Float := { A := (A0, 0, false), Aold := (A0, 0, false), alpha := lit 1 10, M := M0 }
+  let rec go (fuel cycle : Nat) (s : MmcState St Float) : MmcState St Float × Nat :=
+    match fuel with
+    | 0 => (s, cycle - 1)
+    | fuel+1 =>
+      let s' := mmcCycle project obj dir step cycle s
+      let delta := frobNorm (mscale s'.alpha (Mat.ofStore s'.M.1)) / frobNorm (Mat.ofStore s'.Aold.1)
+      if delta < tol then (s', cycle) else go fuel (cycle + 1) s'
+  let (sf, nIter) := go maxIter 0 s0
+  let bad := sf.A.2.2 || sf.Aold.2.2
+  return s!"ok {nIter} {if bad then 1 else 0} " ++ renderArr (Mat.ofStore sf.Aold.1).toArray
+
 /-- C12: the whole LSML solver loop (`lsmlLoop`, the function the descent theorems are about) replayed with the
 implementation's own `eigh` results as oracle: call `10·it + j` is the decomposition of the `j`-th candidate of iteration
 `it`.  Returns `n_iter_`, the final matrix, the final loss and the largest deviation between a recorded decomposition
@@ -613,6 +678,7 @@ def dispatch : P String := do
   | "wiring" => opWiring
   | "check_input" => opCheckInput
   | "lsml_run" => opLsmlRun
+  | "mmc_run" => opMmcRun
   | "calib" => opCalib
   | "calib_code" => opCalibCode
   | "calib_rate_code" => opCalibRateCode
